@@ -27,6 +27,7 @@ extern int vf_crashed;
 extern int vf_guard_on[VF_N];
 extern unsigned char vf_allow0[FCAP], vf_allow1[FCAP], vf_allow2[FCAP];
 extern int vf_guard_violated;
+extern int vf_tmp_fd_fixed;       /* >= 0: mkstemp returns exactly this descriptor */
 void vf_havoc(int k);                       /* fill file k's array with arbitrary bytes */
 void vf_attach(int k, int fd, size_t size); /* open file k as descriptor fd with given size, position 0 */
 unsigned char vf_get(int k, size_t i);
